@@ -49,7 +49,8 @@ def sh(cmd, cwd=None, env=None, timeout=3600):
 
 
 def run_check(chk, repo):
-    env = dict(os.environ, RXSCI_REPO=repo)
+    env = dict(os.environ, RXSCI_REPO=repo, VERIF_EVIDENCE_DIR=os.path.join(os.path.dirname(repo), 'evidence'),
+               VERIF_REPLAY_DIR=os.path.join(os.path.dirname(repo), 'replays'))
     t0 = time.time()
     rc, out = sh([os.path.join(VERIF, 'bin', 'check'), chk, 'quick'], cwd=VERIF, env=env)
     viol = [l for l in out.splitlines() if l.startswith('VIOLATION')]
@@ -102,28 +103,18 @@ def run_one(sid, with_tests=True):
 
 def do_run(ids):
     ids = ids or sorted(os.listdir(SEEDED))
-    ev_dir = os.path.join(VERIF, 'evidence')
-    saved = tempfile.mkdtemp(prefix='rxsci-verif.ev.')
-    for f in os.listdir(ev_dir):
-        shutil.copy(os.path.join(ev_dir, f), saved)
     import concurrent.futures as cf
-    try:
-        with cf.ThreadPoolExecutor(max_workers=int(os.environ.get('SEEDED_JOBS', '3'))) as ex:
-            futs = [(sid, ex.submit(run_one, sid)) for sid in ids
-                    if os.path.exists(os.path.join(SEEDED, sid, 'meta.json'))]
-            for sid, fu in futs:
-                r = fu.result()
-                mp = os.path.join(SEEDED, sid, 'meta.json')
-                meta = json.load(open(mp))
-                meta['verification'] = r
-                json.dump(meta, open(mp, 'w'), indent=1)
-                print('%-8s %-20s confirmed=%s detected_by=%s' % (sid, r.get('status'), r.get('confirmed'),
-                                                                 r.get('detected_by')), flush=True)
-    finally:
-        for f in os.listdir(saved):
-            shutil.copy(os.path.join(saved, f), ev_dir)
-        shutil.rmtree(saved, ignore_errors=True)
-        shutil.rmtree(os.path.join(VERIF, 'replays'), ignore_errors=True)
+    with cf.ThreadPoolExecutor(max_workers=int(os.environ.get('SEEDED_JOBS', '3'))) as ex:
+        futs = [(sid, ex.submit(run_one, sid)) for sid in ids
+                if os.path.exists(os.path.join(SEEDED, sid, 'meta.json'))]
+        for sid, fu in futs:
+            r = fu.result()
+            mp = os.path.join(SEEDED, sid, 'meta.json')
+            meta = json.load(open(mp))
+            meta['verification'] = r
+            json.dump(meta, open(mp, 'w'), indent=1)
+            print('%-8s %-20s confirmed=%s detected_by=%s' % (sid, r.get('status'), r.get('confirmed'),
+                                                             r.get('detected_by')), flush=True)
 
 
 if __name__ == '__main__':
